@@ -195,6 +195,30 @@ where
        | some (_, n', m', s') => (n = .man || n' = .opt) && (!m || m') && monotone s s'
        | none => false) && monoKids rest k2
 
+/-- single steps from the implementation's own tree, whatever it is (a root marked as repeated, a root without a
+position, a sub-structure of a parsed tree): an element-less input is accepted and changes nothing (`C06_empty`), and
+a well-formed document with the tree's root name is accepted. `init` is the tree before the first step, if any. -/
+def stepClauses (init : Option Elem) (docs : List DocCase) (obs : List StepObs) : Verdict :=
+  let before : List (Option Elem) := init :: obs.map (·.implTree)
+  firstBad (((before.zip (docs.zip obs)).zipIdx).map fun ((prev, d, cur), i) => fun _ =>
+    match prev with
+    | none => .ok
+    | some p =>
+      if firstFault 0 d.evs == none && !hasElement 0 d.evs then
+        match cur.implRes with
+        | .ok t =>
+          if t.beq (if p.position.isNone then p.setPosition (some 0) else p) then .ok
+          else .prop s!"step={i} an element-less input changed the tree: {showElem p} -> {showElem t}"
+        | .error m => .prop s!"step={i} an element-less input is rejected: {showName m}"
+      else match d.dom with
+        | some n =>
+          if n.wellFormed && n.attrsDistinct && n.name == p.name then
+            match cur.implRes with
+            | .ok _ => .ok
+            | .error m => .prop s!"step={i} a well-formed document with the root name of the structure is rejected: {showName m}"
+          else .ok
+        | none => .ok)
+
 def checkC06Single (c : HCase) : Verdict :=
   let obs := runHistory c.docs
   firstBad [
@@ -213,28 +237,47 @@ def checkC06Single (c : HCase) : Verdict :=
       match a.implTree, b.implTree with
       | some x, some y => if monotone x.abs y.abs then .ok else .prop s!"an extension lost information: {showSchema x.abs} -> {showSchema y.abs}"
       | _, _ => .ok),
-    -- single steps from the implementation's own tree, whatever it is (a root marked as repeated, a root
-    -- without a position, ...): an element-less input is accepted and changes nothing (`C06_empty`), and
-    -- a well-formed document with the tree's root name is accepted
-    fun _ => firstBad (((obs.zip ((c.docs.drop 1).zip (obs.drop 1))).zipIdx).map fun ((prev, d, cur), i) => fun _ =>
-      match prev.implTree with
-      | none => .ok
-      | some p =>
-        if firstFault 0 d.evs == none && !hasElement 0 d.evs then
-          match cur.implRes with
-          | .ok t =>
-            if t.beq (if p.position.isNone then p.setPosition (some 0) else p) then .ok
-            else .prop s!"step={i+1} an element-less input changed the tree: {showElem p} -> {showElem t}"
-          | .error m => .prop s!"step={i+1} an element-less input is rejected: {showName m}"
-        else match d.dom with
-          | some n =>
-            if n.wellFormed && n.attrsDistinct && n.name == p.name then
-              match cur.implRes with
-              | .ok _ => .ok
-              | .error m => .prop s!"step={i+1} a well-formed document with the root name of the structure is rejected: {showName m}"
-            else .ok
-          | none => .ok),
+    fun _ => stepClauses none c.docs obs,
     fun _ => historyCorr 1 obs ]
+
+/-! ### C06 on a sub-structure of a parsed structure -/
+/-- `SUB <id> C06 <base history> P<n> name* <sub tree> <extension history>`: the element at the path inside the
+structure parsed from the base history is extended with the extension documents (`C06_substructure`) -/
+def checkSub (base : HCase) (path : List Name) (sub : Elem) (ext : HCase) : Verdict :=
+  let bobs := runHistory base.docs
+  let obs := runHistoryFrom ext.docs (some sub)
+  firstBad [
+    fun _ => checkC06Single base,
+    -- the harness walked `get_child` along the path: same element as the model's `elemAt`
+    fun _ => match finalImplTree bobs with
+      | none => .gen "no-base-tree"
+      | some t => match elemAt path t with
+        | some s => if s.beq sub then .ok else .corr s!"elemAt: model={showElem s} impl={showElem sub}"
+        | none => .corr "elemAt: the model finds no element at the path",
+    -- union of all occurrences at the path and the new documents, after every step
+    fun _ => match domsOf base.docs, domsOf ext.docs with
+      | some bd, some ed =>
+        if !(wfDocs bd && ed.all (fun d => d.wellFormed && d.attrsDistinct && d.name == sub.name)) then .ok else
+        firstBad (((obs.zip (prefixes ed)).zipIdx).map fun ((s, ds), i) => fun _ =>
+          match s.implRes with
+          | .ok t => if schemaEq t.abs (specOfDocs (occsAt path bd ++ ds)) then .ok
+              else .prop s!"sub-structure step={i} not the schema of the union: {showSchema t.abs.canon} vs {showSchema (specOfDocs (occsAt path bd ++ ds)).canon}"
+          | .error m => .prop s!"sub-structure step={i} error on a well-formed document: {showName m}")
+      | _, _ => .ok,
+    fun _ => firstBad ((( (some sub :: obs.map (·.implTree)).zip obs).map fun (a, b) => fun _ =>
+      match a, b.implTree with
+      | some x, some y => if monotone x.abs y.abs then .ok else .prop s!"an extension of the sub-structure lost information: {showSchema x.abs} -> {showSchema y.abs}"
+      | _, _ => .ok)),
+    fun _ => stepClauses (some sub) ext.docs obs,
+    fun _ => historyCorr 1 obs ]
+
+def handleSub (ts : List String) : Option Verdict := do
+  let (base, ts) ← pHBody ts
+  let (n, ts) ← pCount 'P' ts
+  let (path, ts) ← pRep pName n ts
+  let (sub, ts) ← pElem fuelMax ts
+  let (ext, ts) ← pHBody ts
+  if ts.isEmpty then some (checkSub base path sub ext) else none
 
 def checkPair (prop rel : String) (a b : HCase) : Verdict :=
   match prop with
